@@ -137,21 +137,25 @@ func c12Release(a *An, tf *tableFacts, root *ssa.Function) {
 		if !ok {
 			fn := op.V.Instr.Parent()
 			if handed, hw := keyReturnedInSlice(op); handed {
-				// the call of fn in the chain
-				for c := op.V.Ctx; c != nil && c.Parent != nil; c = c.Parent {
-					if c.Fn != fn {
-						continue
+				// follow the slice up the calling chain: a caller either releases its elements or returns it further
+				for c := op.V.Ctx; c != nil && c.Parent != nil && !ok; c = c.Parent {
+					if c.Fn != fn && !returnsCallResult(c.Fn) {
+						break
 					}
-					callPath := ""
-					if call, isCall := c.Site.(*ssa.Call); isCall {
-						callPath = stripIDs(c.Parent.path(call))
+					call, isCall := c.Site.(*ssa.Call)
+					if !isCall {
+						break
 					}
+					callPath := stripIDs(c.Parent.path(call))
 					for _, rm := range rms {
-						call := rm.Instr.(*ssa.Call)
-						ap := stripIDs(rm.Ctx.path(call.Call.Args[1]))
-						if callPath != "" && strings.HasPrefix(ap, callPath+"#0[") && rm.Ctx == c.Parent {
-							ok, how = true, hw+"; the caller "+shortFn(c.Parent.Fn)+" calls inotify_rm_watch on every element at "+a.P.instrPos(call)
+						rcall := rm.Instr.(*ssa.Call)
+						ap := stripIDs(rm.Ctx.path(rcall.Call.Args[1]))
+						if strings.HasPrefix(ap, callPath+"#0[") || strings.HasPrefix(ap, callPath+"[") {
+							ok, how = true, hw+"; "+shortFn(rm.Ctx.Fn)+" calls inotify_rm_watch on every element at "+a.P.instrPos(rcall)
 						}
+					}
+					if !ok && !returnsCallResult(c.Parent.Fn) {
+						break
 					}
 				}
 				if !ok {
@@ -197,6 +201,51 @@ func c12Release(a *An, tf *tableFacts, root *ssa.Function) {
 		}
 		a.R.ob("C12.2", key, "inotify_rm_watch is issued only for a descriptor whose entry was just taken out of the tables", a.P.instrPos(call), ok, how)
 	}
+}
+
+// returnsCallResult: some return of fn yields (a result of) a call made in fn, i.e. fn hands a callee's value on.
+func returnsCallResult(fn *ssa.Function) bool {
+	for _, b := range fn.Blocks {
+		r, ok := b.Instrs[len(b.Instrs)-1].(*ssa.Return)
+		if !ok {
+			continue
+		}
+		for _, res := range r.Results {
+			v := res
+			if u, ok := v.(*ssa.UnOp); ok {
+				if al, ok := u.X.(*ssa.Alloc); ok {
+					// defer-spilled result: look at the stores
+					for _, st := range cellStores(al) {
+						if isCallValue(st.Val) {
+							return true
+						}
+					}
+				}
+			}
+			if isCallValue(v) {
+				return true
+			}
+			if ph, ok := v.(*ssa.Phi); ok {
+				for _, e := range ph.Edges {
+					if isCallValue(e) {
+						return true
+					}
+				}
+			}
+		}
+	}
+	return false
+}
+
+func isCallValue(v ssa.Value) bool {
+	switch x := v.(type) {
+	case *ssa.Call:
+		return true
+	case *ssa.Extract:
+		_, ok := x.Tuple.(*ssa.Call)
+		return ok
+	}
+	return false
 }
 
 // keyReturnedInSlice: the deleted key value is appended to / placed in a slice in the same function, under a condition
